@@ -137,27 +137,9 @@ func (z *ZodXor[T, R]) MustParse(input any, ctx ...*core.ParseContext) R {
 // StrictParse validates input with compile-time type safety.
 // The input must exactly match the schema's base type T.
 func (z *ZodXor[T, R]) StrictParse(input T, ctx ...*core.ParseContext) (R, error) {
-	constraintInput, ok := convertToUnionConstraint[T, R](input)
-	if !ok {
-		var zero R
-		parseCtx := resolveCtx(ctx)
-		return zero, issues.CreateTypeConversionError(
-			fmt.Sprintf("%T", input),
-			"xor constraint type",
-			any(input),
-			parseCtx,
-		)
-	}
-
-	return engine.ParseComplexStrict[any, R](
-		constraintInput,
-		&z.internals.ZodTypeInternals,
-		core.ZodTypeUnion,
-		z.extractType,
-		z.extractPtr,
-		z.validate,
-		ctx...,
-	)
+	// StrictParse must answer exactly what Parse answers: the statically typed input is a valid
+	// Parse input, so run the one pipeline.
+	return z.Parse(input, ctx...)
 }
 
 // MustStrictParse is like StrictParse but panics on validation failure.
